@@ -242,7 +242,14 @@ impl ExecResult {
     pub fn disorder(&self) -> Option<(String, String, String)> {
         // (class, site, message)
         match &self.end {
-            EndKind::Signaled(s) => return Some(("crash".into(), format!("signal {s}"), String::new())),
+            EndKind::Signaled(s) => {
+                let note = if std::env::var("FPSIM_PHASE").map_or(false, |p| p == "asan") && *s == 6 {
+                    "the simulated process was aborted (signal 6) in the AddressSanitizer build: memory error report in the directory named by ASAN_OPTIONS log_path, or an abort() in the code under test"
+                } else {
+                    "the simulated process was killed by a signal"
+                };
+                return Some(("crash".into(), format!("signal {s}"), note.to_string()));
+            }
             EndKind::Timeout => return Some(("hang".into(), "wall-clock limit".into(), String::new())),
             EndKind::Harness(m) => return Some(("harness".into(), "harness".into(), m.clone())),
             EndKind::Completed => {}
